@@ -1028,7 +1028,11 @@ func runServer(udp bool, peers, first []string) error {
 				k := 1
 				for time.Now().Before(end) {
 					time.Sleep(c14Idle / 4)
-					if time.Since(last) > c14Idle/2 || stalls.StalledBetween(last, time.Now()) {
+					// the verdict "closed although it kept sending" needs the node to have had every chance: the gap
+					// between two keepalives plus whatever delays the datagram on its way to the reader must stay well
+					// below the idle timeout, so a late sender (nominal gap idle/4) or any scheduling gap of 20 ms and
+					// more in this process makes the case inconclusive
+					if time.Since(last) > c14Idle/3 || stalls.StalledBetweenOver(last, time.Now(), 20*time.Millisecond) {
 						r.stalled = true // the sender or the whole process was held up: inconclusive
 					}
 					last = time.Now()
